@@ -22,12 +22,11 @@ meta = {
     "what_i_ran": [
         "tools/confirm_seed.sh: fresh scratch worktree of /repo HEAD; demo.py on the unchanged tree (exit 0), git apply patch.diff, "
         "demo.py again (exit 0), pytest tests/ (same environment failures as the unchanged tree); worktree removed",
-        "tools/replay_all.py: the patch applied in memory, all 19 property checks (every one silent); "
-        "after the repairs F26 - F28 the demonstration was run again on /repo HEAD 21917b9 and on a patched copy (exit 0 / exit 0)",
+        "tools/replay_all.py: the patch applied in memory, all 19 property checks (every one silent)",
     ],
     "silent": True,
 }
-if os.path.exists(os.path.join(src, "patch.orig.diff")):
+if os.path.exists(os.path.join(src, "patch.orig.diff")) and sid.endswith(("g_b1", "g_b2", "g_b3")):
     meta["rebased"] = ("re-based onto /repo HEAD 21917b9 after the repairs F26 - F28 touched the same lines (3-way merge, conflicts resolved by hand; "
                        "tests and demonstration re-run on the re-based patch)")
 json.dump(meta, open(os.path.join(dst, "meta.json"), "w"), indent=1)
